@@ -20,7 +20,6 @@ after closing it, by a call of every name (direct, and through hy.eval without
 `macros`).  Each history runs in a fresh module object.
 Oracle: mc/ref/mac_ns.py (dict-chain namespace model).
 """
-import itertools
 import json
 import os
 
@@ -134,7 +133,7 @@ def _depth_after(op, depth):
 
 
 def shards(tier):
-    out = [["graph", ri] for ri in range(len(BOUNDS[tier]["runs"]))]
+    out = [["graph", 0]]
     for ri, (lv, k) in enumerate(BOUNDS[tier]["runs"]):
         alpha = _alphabet(lv)
         out.append(["short", ri])
@@ -276,16 +275,13 @@ def expected(history):
     from mc.ref.mac_ns import Namespaces, ABSENT
     ns = Namespaces(HELPERS)
     evalms = []
-    kinds = []
     for i, op in enumerate(history):
         if op[0] == "def":
             ns.defmacro(op[1], 100 + i)
         elif op[0] == "enter":
             ns.enter(transparent=(op[1] == "for"))
-            kinds.append(op[1])
         elif op[0] == "leave":
             ns.leave()
-            kinds.pop()
         elif op[0] == "prag":
             ns.pragma(op[1])
         elif op[0] == "req":
@@ -334,7 +330,7 @@ def expected(history):
         if not lvl:
             break
         ns.leave()
-    if "when" in ns.warnings or any(op[0] == "prag" for op in history) and any(
+    if any(op[0] == "prag" for op in history) and any(
             (op[0] == "def" and op[1] == "when") or (op[0] == "req" and _brings_when(op)) for op in history):
         nontrivial = True
     module = {k: set(v) for k, v in final_module.items()}
@@ -579,32 +575,34 @@ def _labels(tag, names):
 
 # ------------------------------------------------------------------ shards
 
-def _graph(acc, tier, ri):
-    """Pruned BFS of the reference model alone: exact number of distinct canonical
-    namespace states within the depth, and of (state, operation) edges."""
-    lv, k = BOUNDS[tier]["runs"][ri]
-    alpha = _alphabet(lv)
-    seen = set()
-    edges = 0
-    frontier = [((), 0)]
-    seen.add(repr(expected([])["canon"]))
-    for depth in range(k):
-        nxt = []
-        for h, d in frontier:
-            for op in alpha:
-                if not _enabled(op, d):
-                    continue
-                edges += 1
-                h2 = h + (op,)
-                c = repr(expected([list(o) for o in h2])["canon"])
-                if c in seen:
-                    continue
-                seen.add(c)
-                nxt.append((h2, _depth_after(op, d)))
-        frontier = nxt
-    acc.states += len(seen)
-    acc.count(f"run{ri}:canonical_states", len(seen))
-    acc.count(f"run{ri}:state_op_edges", edges)
+def _graph(acc, tier):
+    """Pruned BFS of the reference model alone, per run of the tier: exact number of
+    distinct canonical namespace states within the depth (union over the runs) and
+    of (state, operation) edges."""
+    union = set()
+    for ri, (lv, k) in enumerate(BOUNDS[tier]["runs"]):
+        alpha = _alphabet(lv)
+        seen = {repr(expected([])["canon"])}
+        edges = 0
+        frontier = [((), 0)]
+        for depth in range(k):
+            nxt = []
+            for h, d in frontier:
+                for op in alpha:
+                    if not _enabled(op, d):
+                        continue
+                    edges += 1
+                    h2 = h + (op,)
+                    c = repr(expected([list(o) for o in h2])["canon"])
+                    if c in seen:
+                        continue
+                    seen.add(c)
+                    nxt.append((h2, _depth_after(op, d)))
+            frontier = nxt
+        acc.count(f"run{ri}:canonical_states", len(seen))
+        acc.count(f"run{ri}:state_op_edges", edges)
+        union |= seen
+    acc.states += len(union)
 
 
 def run_shard(shard, tier):
@@ -613,7 +611,7 @@ def run_shard(shard, tier):
     lv, k = BOUNDS[tier]["runs"][ri]
     alpha = _alphabet(lv)
     if what == "graph":
-        _graph(acc, tier, ri)
+        _graph(acc, tier)
         return acc.result()
     if what == "short":
         hs = [()] + [(op,) for op in alpha if _enabled(op, 0)]
